@@ -57,6 +57,8 @@ def restrict_history(h: dict, g: dict) -> dict:
     D = {tuple(e) for e in g["D"]}
     B = {frozenset(e) for e in g["B"]}
     out = {"ctor": h["ctor"], "copy": h.get("copy", False)}
+    if h.get("via"):
+        out["via"] = h["via"]
     if h["ctor"] == "incremental":
         steps = []
         for s in h["steps"]:
@@ -287,6 +289,22 @@ def minimise_many(cases: list[dict], fails: Callable[[list[dict]], bool], budget
                 info.setdefault("history_irrelevant", []).append([ci, gi])
     # 8. nodes, then edges
     for gi in range(len(cur[0]["graphs"])):
+        if len(cur[0]["graphs"][gi]["nodes"]) > 40:
+            # a long chain: drop nodes in halves first (one at a time would take a run per node)
+            def without(keep: list, gi: int = gi) -> list:
+                drop = [x for x in cur[0]["graphs"][gi]["nodes"] if x not in set(keep)]
+                out = copy.deepcopy(cur)
+                for x in drop:
+                    out = [_strip_node(c, gi, x) for c in out]
+                    if any(c is None for c in out):
+                        return cur
+                return out
+
+            kept_nodes = _ddmin_list(list(cur[0]["graphs"][gi]["nodes"]),
+                                     lambda keep: budget.left > 0 and fails(without(keep)))
+            cur = without(kept_nodes)
+            info["steps"].append(f"nodes-{gi}->{len(kept_nodes)}")
+            continue
         for n in list(cur[0]["graphs"][gi]["nodes"]):
             attempt([_strip_node(c, gi, n) for c in cur], f"drop-node-{gi}-{n}")
         for kind in ("D", "B"):
